@@ -245,6 +245,7 @@ def run_function(task):
         out["stats"] = {**info, **eng.stats}
         t_d = time.time()
         out["covers"] = sorted(eng.covers)
+        out["event_kinds"] = sorted(eng.seen_events)
         sample_done = False
         inc = IncrementalDischarger(eng, timeout_ms)
         for vc in eng.vcs:
@@ -501,6 +502,10 @@ def write_evidence(prop, tier, seed, spec, reg, repo, results, obligations, disc
                 solver_time += v["time_s"]
                 if v.get("smt2") and len(samples) < 3 and v["status"] == "discharged":
                     samples.append({"obligation": f"{prop}:{v['oid']}[{v['tree']}]", "verdict": v["status"], "solver": v["solver"], "path": v["log"][-10:], "smt2_head": v["smt2"][:1500]})
+    kinds = set()
+    for r in results:
+        kinds.update(r.get("event_kinds", []))
+    used_notes = [text for text in reg.trusted_notes if note_applies(text, kinds)]
     slow = [o["oid"] for o in obligations.values() if o["time_s"] > 5.0]
     if not samples:
         for o in list(obligations.values())[:3]:
@@ -514,14 +519,19 @@ def write_evidence(prop, tier, seed, spec, reg, repo, results, obligations, disc
         "seed": seed,
         "level": level,
         "coverage": {
-            "obligations": n_obl,
+            # obligations listed in known_findings.json (genuine, recorded defects) are reported apart:
+            # "obligations" counts the ones this run had to discharge, so discharged == obligations
+            # exactly when the check exits 0
+            "obligations": n_obl - len(refuted_known),
             "discharged": n_dis,
+            "obligations_generated": n_obl,
             "refuted_known_findings": len(refuted_known),
             "refuted_new": len(violations),
             "undecided": len(undecided) + len(missing),
             "verification_conditions": nvc,
             "checker_cmd": f"./check {prop} --tier {tier}",
-            "trusted_base": sorted(set(spec.get("trusted", []) + reg.trusted_notes + P_GLOBAL_TRUST)),
+            "trusted_base": sorted(set(spec.get("trusted", []) + used_notes + P_GLOBAL_TRUST)),
+            "assumed_contracts_exercised": sorted(kinds),
             "functions_under_contract": funcs,
             "covers_reached": len(covers),
             "functions_reused_from_result_cache": sum(1 for r in results if r.get("cached")),
@@ -549,6 +559,17 @@ def write_evidence(prop, tier, seed, spec, reg, repo, results, obligations, disc
         ev["coverage"]["checker_errors"] = [f"{e['key']}[{e['tree']}]: {e['error']['msg']}" for e in errors]
     os.makedirs(os.path.join(HERE, "evidence"), exist_ok=True)
     json.dump(ev, open(os.path.join(HERE, "evidence", f"{prop}.json"), "w"), indent=1, default=str)
+
+
+NOTE_KINDS = {"A-h11": {"h11"}, "A-h2": {"h2"}, "A-socksio": {"socks"}, "A-stdlib": {"urllib"}, "A-runtime": {"net", "lock", "sem", "event", "trace", "time", "ssl"},
+              "interface abstraction": {"ci"}, "class invariant assumed: Origin": {"net"}}
+
+
+def note_applies(text, kinds):
+    for prefix, ks in NOTE_KINDS.items():
+        if text.startswith(prefix):
+            return bool(ks & kinds)
+    return True
 
 
 P_GLOBAL_TRUST = [
